@@ -422,7 +422,7 @@ From OxiVerif Require Import DD.CanonBcdd DD.ApplyBcdd DD.ApplyBcddProofs DD.App
   DD.FamSpec DD.ZbddOps DD.ZbddOpsProofs DD.ZbddVarsProofs DD.ZbddBool DD.ZbddBoolProofs DD.ZbddEvalProofs DD.ZbddExamples
   DD.ConfigInsert DD.ConfigBcdd DD.ConfigBcddProofs DD.ConfigBcddCache DD.ConfigBcddIndep
   DD.ConfigZbdd DD.ConfigZbddProofs DD.ConfigZbddIte DD.ConfigZbddCache DD.ConfigZbddCacheIte DD.ConfigZbddIndep
-  DD.ConfigXExamples.
+  DD.ConfigBcddRun DD.ConfigZbddRun DD.ConfigXExamples.
 
 (** ** BCDD (a): any two lossy caches and edge orders, same store and schedule: identical table and edge *)
 
@@ -825,3 +825,143 @@ Proof.
           (conj ZbddBoolExamples.ex_z4_nocache_ok (conj ex_z_configs ex_z_tables_differ))))).
 Qed.
 Print Assumptions C20_zbdd_example.
+
+(** ** BCDD / ZBDD: whole API-call histories (const, var, not_var, not, the 8 operators, ite, clone, drop) *)
+
+(** [csim] / [zsim]: both tables well-formed (ZBDD: with the tautology chain), same
+    variable order, same handle slots, slot-wise the same function / family *)
+Theorem C20_bcdd_sim_spec : forall s1 s2,
+  csim s1 s2 <->
+  BcOK s1 /\ BcOK s2 /\ s_v2l s1 = s_v2l s2 /\ s_l2v s1 = s_l2v s2 /\
+  Forall2 (fun h1 h2 : N * edge => fst h1 = fst h2 /\
+             exists phi, DenC s1 (snd h1) phi /\ DenC s2 (snd h2) phi)
+          (s_handles s1) (s_handles s2).
+Proof.
+  exact (fun s1 s2 => conj
+    (fun S => conj (csim_b1 _ _ S) (conj (csim_b2 _ _ S) (conj (csim_v2l _ _ S) (conj (csim_l2v _ _ S) (csim_h _ _ S)))))
+    (fun H => match H with conj a (conj b (conj c (conj d e))) => mkCSim s1 s2 a b c d e end)).
+Qed.
+Print Assumptions C20_bcdd_sim_spec.
+
+Theorem C20_zbdd_sim_spec : forall s1 s2,
+  zsim s1 s2 <->
+  ZbddOK s1 /\ ZbddOK s2 /\ ZChainOK s1 /\ ZChainOK s2 /\ s_v2l s1 = s_v2l s2 /\ s_l2v s1 = s_l2v s2 /\
+  Forall2 (fun h1 h2 : N * edge => fst h1 = fst h2 /\ etag (snd h1) = false /\ etag (snd h2) = false /\
+             exists P, ZDen s1 (eref (snd h1)) P /\ ZDen s2 (eref (snd h2)) P)
+          (s_handles s1) (s_handles s2).
+Proof.
+  exact (fun s1 s2 => conj
+    (fun S => conj (zsim_b1 _ _ S) (conj (zsim_b2 _ _ S) (conj (zsim_c1 _ _ S) (conj (zsim_c2 _ _ S)
+                (conj (zsim_v2l _ _ S) (conj (zsim_l2v _ _ S) (zsim_h _ _ S)))))))
+    (fun H => match H with conj a (conj b (conj c (conj d (conj e (conj f g))))) => mkZSim s1 s2 a b c d e f g end)).
+Qed.
+Print Assumptions C20_zbdd_sim_spec.
+
+Theorem C20_bcdd_sim_refl : forall s, BcOK s -> csim s s.
+Proof. exact csim_refl. Qed.
+Print Assumptions C20_bcdd_sim_refl.
+
+Theorem C20_zbdd_sim_refl : forall s, ZbddOK s -> ZChainOK s -> zsim s s.
+Proof. exact zsim_refl. Qed.
+Print Assumptions C20_zbdd_sim_refl.
+
+(** two managers related by [csim] with correct caches run the same call list
+    under two arbitrary configurations: they fail together or end with [wf_b]
+    tables and equal observations (slot, value under every choice, node
+    count; variable order) *)
+Theorem C20_bcdd_run_ops_observe :
+  forall alloc1, alloc_ok alloc1 -> forall lt1 C1 cget1 cadd1, lossyC cget1 cadd1 -> forall sch1,
+  forall alloc2, alloc_ok alloc2 -> forall lt2 C2 cget2 cadd2, lossyC cget2 cadd2 -> forall sch2,
+  forall ops (st1 : cmstate C1) (st2 : cmstate C2),
+  csim (cm_snap C1 st1) (cm_snap C2 st2) /\
+  CacheOKC cget1 (cm_snap C1 st1) (cm_cache C1 st1) /\ CacheOKC cget2 (cm_snap C2 st2) (cm_cache C2 st2) ->
+  match crun_ops alloc1 lt1 C1 cget1 cadd1 sch1 st1 ops, crun_ops alloc2 lt2 C2 cget2 cadd2 sch2 st2 ops with
+  | Some a, Some b =>
+    wf_b (cm_snap C1 a) = true /\ wf_b (cm_snap C2 b) = true /\
+    forall c, bchoice c -> observe (cm_snap C1 a) c = observe (cm_snap C2 b) c
+  | None, None => True
+  | _, _ => False
+  end.
+Proof. exact crun_ops_observe. Qed.
+Print Assumptions C20_bcdd_run_ops_observe.
+
+Theorem C20_zbdd_run_ops_observe :
+  forall alloc1, alloc_ok alloc1 -> forall gt1 C1 cget1 cadd1, zlossy C1 cget1 cadd1 -> forall sch1,
+  forall alloc2, alloc_ok alloc2 -> forall gt2 C2 cget2 cadd2, zlossy C2 cget2 cadd2 -> forall sch2,
+  forall ops (st1 : zmstate C1) (st2 : zmstate C2),
+  zsim (zm_snap C1 st1) (zm_snap C2 st2) /\
+  ZCacheOKB C1 cget1 (zm_snap C1 st1) (zm_cache C1 st1) /\ ZCacheOKB C2 cget2 (zm_snap C2 st2) (zm_cache C2 st2) ->
+  match zrun_ops alloc1 gt1 C1 cget1 cadd1 sch1 st1 ops, zrun_ops alloc2 gt2 C2 cget2 cadd2 sch2 st2 ops with
+  | Some a, Some b =>
+    wf_b (zm_snap C1 a) = true /\ wf_b (zm_snap C2 b) = true /\
+    forall c, bchoice c -> observe (zm_snap C1 a) c = observe (zm_snap C2 b) c
+  | None, None => True
+  | _, _ => False
+  end.
+Proof. exact zrun_ops_observe. Qed.
+Print Assumptions C20_zbdd_run_ops_observe.
+
+(** (a) for histories: same store and schedules, any two lossy caches and
+    operand orders: the two runs fail together or end with the IDENTICAL table *)
+Theorem C20_bcdd_run_ops_cache_exact :
+  forall alloc, alloc_ok alloc -> forall sch lt1 lt2 C1 C2 cget1 cadd1 cget2 cadd2,
+  lossyC cget1 cadd1 -> lossyC cget2 cadd2 ->
+  forall ops (st1 : cmstate C1) (st2 : cmstate C2),
+  cm_snap C1 st1 = cm_snap C2 st2 /\ cm_step C1 st1 = cm_step C2 st2 /\ BcOK (cm_snap C1 st1) /\
+  CacheOKC cget1 (cm_snap C1 st1) (cm_cache C1 st1) /\ CacheOKC cget2 (cm_snap C2 st2) (cm_cache C2 st2) ->
+  match crun_ops alloc lt1 C1 cget1 cadd1 sch st1 ops, crun_ops alloc lt2 C2 cget2 cadd2 sch st2 ops with
+  | Some a, Some b =>
+    cm_snap C1 a = cm_snap C2 b /\ cm_step C1 a = cm_step C2 b /\ BcOK (cm_snap C1 a) /\
+    CacheOKC cget1 (cm_snap C1 a) (cm_cache C1 a) /\ CacheOKC cget2 (cm_snap C2 b) (cm_cache C2 b)
+  | None, None => True
+  | _, _ => False
+  end.
+Proof. exact crun_ops_cache_exact. Qed.
+Print Assumptions C20_bcdd_run_ops_cache_exact.
+
+Theorem C20_zbdd_run_ops_cache_exact :
+  forall alloc, alloc_ok alloc -> forall sch gt1 gt2 C1 C2 cget1 cadd1 cget2 cadd2,
+  zlossy C1 cget1 cadd1 -> zlossy C2 cget2 cadd2 ->
+  forall ops (st1 : zmstate C1) (st2 : zmstate C2),
+  zm_snap C1 st1 = zm_snap C2 st2 /\ zm_step C1 st1 = zm_step C2 st2 /\
+  ZbddOK (zm_snap C1 st1) /\ ZChainOK (zm_snap C1 st1) /\
+  ZCacheOKB C1 cget1 (zm_snap C1 st1) (zm_cache C1 st1) /\ ZCacheOKB C2 cget2 (zm_snap C2 st2) (zm_cache C2 st2) ->
+  match zrun_ops alloc gt1 C1 cget1 cadd1 sch st1 ops, zrun_ops alloc gt2 C2 cget2 cadd2 sch st2 ops with
+  | Some a, Some b =>
+    zm_snap C1 a = zm_snap C2 b /\ zm_step C1 a = zm_step C2 b /\
+    ZbddOK (zm_snap C1 a) /\ ZChainOK (zm_snap C1 a) /\
+    ZCacheOKB C1 cget1 (zm_snap C1 a) (zm_cache C1 a) /\ ZCacheOKB C2 cget2 (zm_snap C2 b) (zm_cache C2 b)
+  | None, None => True
+  | _, _ => False
+  end.
+Proof. exact zrun_ops_cache_exact. Qed.
+Print Assumptions C20_zbdd_run_ops_cache_exact.
+
+(** the history models' variable construction on the [fresh_id] store is [zvar] / [znot_var] of DD/ZbddBool.v *)
+Theorem C20_zbdd_var_instance : forall gt C cget cadd fuel s (c : C) var,
+  zvar_a fresh_id s var = zvar s var /\
+  znot_var_g fresh_id gt C cget cadd fuel SSeq s c var = znot_var gt C cget cadd fuel s c var.
+Proof. exact (fun gt C cget cadd fuel s c var => conj (zvar_a_fresh s var) (znot_var_g_seq gt C cget cadd fuel s c var)). Qed.
+Print Assumptions C20_zbdd_var_instance.
+
+(** non-vacuity for the histories: a 15-call history on a 3-variable manager of
+    each kind under three configurations (ZBDD start table = the tautology
+    chain): start states related, runs succeed, node ids differ, observations
+    under all 8 choices agree; same store + schedule: identical final tables *)
+Theorem C20_hist_example :
+  cmsim eacache eac_get unit enc_get (mkCM eacache ex_cempty [] 0) (mkCM unit ex_cempty tt 0) /\
+  zmsim zacache zac_get unit znc_get (mkZM zacache ex_zempty [] 0) (mkZM unit ex_zempty tt 0) /\
+  (zobserve_all zrunA <> None /\ zobserve_all zrunA = zobserve_all zrunB /\ zobserve_all zrunA = zobserve_all zrunC /\
+   zids_of zrunA <> zids_of zrunB /\ zids_of zrunA <> zids_of zrunC) /\
+  (match crun_ops fresh_id ApplyBcddExamples.lt_id eacache eac_get eac_add (fun _ => sch_sw) (mkCM eacache ex_cempty [] 0) ex_cops,
+         crun_ops fresh_id ApplyBcddExamples.gt_id unit enc_get enc_add (fun _ => sch_sw) (mkCM unit ex_cempty tt 0) ex_cops with
+   | Some a, Some b => cm_snap eacache a = cm_snap unit b
+   | _, _ => False
+   end) /\
+  (match zrun_ops fresh_id zgt_id zacache zac_get zac_add (fun _ => sch_sw) (mkZM zacache ex_zempty [] 0) ex_cops,
+         zrun_ops fresh_id (fun _ _ => false) unit znc_get znc_add (fun _ => sch_sw) (mkZM unit ex_zempty tt 0) ex_cops with
+   | Some a, Some b => zm_snap zacache a = zm_snap unit b
+   | _, _ => False
+   end).
+Proof. exact (conj ex_cmsim_AB (conj ex_zmsim_AB (conj ex_zruns ex_hist_cache_exact))). Qed.
+Print Assumptions C20_hist_example.
